@@ -26,6 +26,10 @@
   * `SlWf env L`: `strload` returns such well-formed values (proved for the modelled `strload`,
     `pySl_wf`), `LeafSound env L`: a scalar unmarshaller returns an instance of its class (proved for
     all fourteen executable leaf routines, `pyLeaves_sound`).  `unmarshal_sound_py` has neither.
+  * `noneDepthOk F t` (explicit-fuel forms only; `unmarshal_sound` does not need it): the fuel offset
+    `F` exceeds the alias / NewType chain of union members naming None (`Union[int, NoneAlias]`): the
+    union routine answers None on behalf of such a member, and the checker needs that much fuel to
+    see through the chain.  Always satisfiable (`noneDepthOk_ex`), monotone (`noneDepthOk_mono`).
   * `soundEnv`: a default that violates its own annotation (`x: int = None`) is handed to the
     constructor unconverted, by Python's semantics; `default_needed` shows it.
 
@@ -281,9 +285,117 @@ def defaultOk (F : Nat) (env : Env) (fields : List (Str × Ty)) (p : Str × Val)
   | some f => conforms env F f.2 p.2
   | none => true
 
-/-- Distinct field names; constructor defaults conform to their field's annotation. -/
+mutual
+  /-- `F` exceeds the wrapper chain of every union member that names None through an alias / NewType
+      (`Union[int, NoneAlias]`): the union routine answers None for such a member, and `conforms`
+      needs that much fuel to see through the chain.  Trivial (any `F ≥ 1`) when None members are
+      written as `None`. -/
+  def noneDepthOk (F : Nat) : Ty → Bool
+    | .coll _ e => noneDepthOk F e
+    | .tuple es => noneDepthOks F es
+    | .dict k e => noneDepthOk F k && noneDepthOk F e
+    | .union ms => ms.all (fun m => !m.isNone || decide (wrapDepth m < F)) && noneDepthOks F ms
+    | .wrap _ t => noneDepthOk F t
+    | _ => true
+  termination_by structural t => t
+  def noneDepthOks (F : Nat) : List Ty → Bool
+    | [] => true
+    | t :: ts => noneDepthOk F t && noneDepthOks F ts
+  termination_by structural ts => ts
+end
+
+theorem noneDepthOks_mem {F : Nat} : ∀ {ts : List Ty}, noneDepthOks F ts = true →
+    ∀ t ∈ ts, noneDepthOk F t = true := by
+  intro ts
+  induction ts with
+  | nil => intro _ t ht; cases ht
+  | cons a as ih =>
+    intro h t ht
+    simp only [noneDepthOks, Bool.and_eq_true] at h
+    cases ht with
+    | head => exact h.1
+    | tail _ hm => exact ih h.2 t hm
+
+mutual
+  theorem noneDepthOk_mono {F F' : Nat} (hF : F ≤ F') : (t : Ty) → noneDepthOk F t = true → noneDepthOk F' t = true
+    | .scalar _ | .none | .any | .enum _ | .literal _ | .cls _ => fun _ => rfl
+    | .coll _ e => by
+      simp only [noneDepthOk]; exact noneDepthOk_mono hF e
+    | .tuple es => by
+      simp only [noneDepthOk]; exact noneDepthOks_mono hF es
+    | .dict k e => by
+      simp only [noneDepthOk, Bool.and_eq_true]
+      exact fun h => ⟨noneDepthOk_mono hF k h.1, noneDepthOk_mono hF e h.2⟩
+    | .union ms => by
+      simp only [noneDepthOk, Bool.and_eq_true, List.all_eq_true, Bool.or_eq_true, decide_eq_true_eq]
+      exact fun h => ⟨fun m hm => (h.1 m hm).imp id (fun hlt => Nat.lt_of_lt_of_le hlt hF),
+        noneDepthOks_mono hF ms h.2⟩
+    | .wrap _ t => by
+      simp only [noneDepthOk]; exact noneDepthOk_mono hF t
+  termination_by structural t => t
+  theorem noneDepthOks_mono {F F' : Nat} (hF : F ≤ F') : (ts : List Ty) → noneDepthOks F ts = true → noneDepthOks F' ts = true
+    | [] => fun _ => rfl
+    | t :: ts => by
+      simp only [noneDepthOks, Bool.and_eq_true]
+      exact fun h => ⟨noneDepthOk_mono hF t h.1, noneDepthOks_mono hF ts h.2⟩
+  termination_by structural ts => ts
+end
+
+theorem wrapDepth_bound : ∀ ms : List Ty, ∃ F0, ∀ m ∈ ms, wrapDepth m < F0 := by
+  intro ms
+  induction ms with
+  | nil => exact ⟨0, fun m hm => by cases hm⟩
+  | cons a as ih =>
+    obtain ⟨F0, h⟩ := ih
+    refine ⟨max F0 (wrapDepth a + 1), ?_⟩
+    intro m hm
+    cases hm with
+    | head => omega
+    | tail _ hm' => have := h m hm'; omega
+
+mutual
+  /-- The side condition is satisfiable for every annotation: it only asks for enough fuel. -/
+  theorem noneDepthOk_ex : (t : Ty) → ∃ F0, noneDepthOk F0 t = true
+    | .scalar _ | .none | .any | .enum _ | .literal _ | .cls _ => ⟨0, rfl⟩
+    | .coll _ e => by
+      obtain ⟨F0, h⟩ := noneDepthOk_ex e
+      exact ⟨F0, by simp only [noneDepthOk]; exact h⟩
+    | .tuple es => by
+      obtain ⟨F0, h⟩ := noneDepthOks_ex es
+      exact ⟨F0, by simp only [noneDepthOk]; exact h⟩
+    | .dict k e => by
+      obtain ⟨F1, h1⟩ := noneDepthOk_ex k
+      obtain ⟨F2, h2⟩ := noneDepthOk_ex e
+      refine ⟨max F1 F2, ?_⟩
+      simp only [noneDepthOk, Bool.and_eq_true]
+      exact ⟨noneDepthOk_mono (Nat.le_max_left _ _) k h1, noneDepthOk_mono (Nat.le_max_right _ _) e h2⟩
+    | .union ms => by
+      obtain ⟨F1, h1⟩ := wrapDepth_bound ms
+      obtain ⟨F2, h2⟩ := noneDepthOks_ex ms
+      refine ⟨max F1 F2, ?_⟩
+      simp only [noneDepthOk, Bool.and_eq_true, List.all_eq_true, Bool.or_eq_true, decide_eq_true_eq]
+      exact ⟨fun m hm => Or.inr (Nat.lt_of_lt_of_le (h1 m hm) (Nat.le_max_left _ _)),
+        noneDepthOks_mono (Nat.le_max_right _ _) ms h2⟩
+    | .wrap _ t => by
+      obtain ⟨F0, h⟩ := noneDepthOk_ex t
+      exact ⟨F0, by simp only [noneDepthOk]; exact h⟩
+  termination_by structural t => t
+  theorem noneDepthOks_ex : (ts : List Ty) → ∃ F0, noneDepthOks F0 ts = true
+    | [] => ⟨0, rfl⟩
+    | t :: ts => by
+      obtain ⟨F1, h1⟩ := noneDepthOk_ex t
+      obtain ⟨F2, h2⟩ := noneDepthOks_ex ts
+      refine ⟨max F1 F2, ?_⟩
+      simp only [noneDepthOks, Bool.and_eq_true]
+      exact ⟨noneDepthOk_mono (Nat.le_max_left _ _) t h1, noneDepthOks_mono (Nat.le_max_right _ _) ts h2⟩
+  termination_by structural ts => ts
+end
+
+/-- Distinct field names; constructor defaults conform to their field's annotation; the fuel `F`
+    sees through the wrapped-None union members of the field annotations. -/
 def soundClass (F : Nat) (env : Env) (ci : ClassInfo) : Bool :=
   nodupStr (ci.fields.map Prod.fst) && ci.defaults.all (defaultOk F env ci.fields)
+    && ci.fields.all (fun f => noneDepthOk F f.2)
 
 def soundEnv (F : Nat) (env : Env) : Bool := env.all (soundClass F env)
 
@@ -298,6 +410,24 @@ theorem soundEnv_cls {F : Nat} {env : Env} (h : soundEnv F env = true) {c : Nat}
   apply h
   unfold Env.cls at hc
   exact List.mem_of_getElem? hc
+
+theorem defaultOk_mono {F F' : Nat} (hF : F ≤ F') (env : Env) (fields : List (Str × Ty)) (p : Str × Val) :
+    defaultOk F env fields p = true → defaultOk F' env fields p = true := by
+  unfold defaultOk
+  split
+  · exact hasTypeG_mono_le _ _ env hF _ _
+  · exact id
+
+/-- The side conditions only ask for *enough* fuel. -/
+theorem soundEnv_mono {F F' : Nat} (hF : F ≤ F') {env : Env} (h : soundEnv F env = true) :
+    soundEnv F' env = true := by
+  unfold soundEnv at h ⊢
+  rw [List.all_eq_true] at h ⊢
+  intro ci hci
+  have := h ci hci
+  simp only [soundClass, Bool.and_eq_true, List.all_eq_true] at this ⊢
+  exact ⟨⟨this.1.1, fun p hp => defaultOk_mono hF env ci.fields p (this.1.2 p hp)⟩,
+    fun f hf => noneDepthOk_mono hF f.2 (this.2 f hf)⟩
 
 theorem clsOk_td {P : Ty → Val → Bool} {c : Nat} {ci : ClassInfo} (hfl : ci.flavour = .typeddict)
     (kw : List (Str × Val)) :
@@ -322,13 +452,13 @@ theorem isMemberOf_wf {env : Env} {c : Nat} {d : Val} (hm : isMemberOf c d = tru
 
 theorem unmarshal_sound_aux (F : Nat) (env : Env) (L : Leaves) (hE : soundEnv F env = true)
     (hL : LeafSound env L) (hS : SlWf env L) :
-    ∀ (n : Nat) (t : Ty) (x r : Val), wfVal env x = true → um env L n t x = .ok r →
-      conforms env (n + F) t r = true := by
+    ∀ (n : Nat) (t : Ty) (x r : Val), noneDepthOk F t = true → wfVal env x = true →
+      um env L n t x = .ok r → conforms env (n + F) t r = true := by
   intro n
   induction n with
-  | zero => intro t x r _ h; simp [um] at h
+  | zero => intro t x r _ _ h; simp [um] at h
   | succ n ih =>
-    intro t x r hx h
+    intro t x r hN hx h
     have hfuel : n + 1 + F = (n + F) + 1 := by omega
     rw [hfuel, conforms_succ]
     cases t with
@@ -390,6 +520,7 @@ theorem unmarshal_sound_aux (F : Nat) (env : Env) (L : Leaves) (hE : soundEnv F 
             · cases h
     | coll k e =>
       simp only [um] at h
+      simp only [noneDepthOk] at hN
       simp only [tyStep, collOk]
       split at h
       · cases h
@@ -403,9 +534,10 @@ theorem unmarshal_sound_aux (F : Nat) (env : Env) (L : Leaves) (hE : soundEnv F 
           rw [collOf_mkColl]
           simp only [List.all_eq_true]
           exact mapR_ok_forall (um env L n e) (fun y => conforms env (n + F) e y = true) xs ys hys
-            (fun x' hx' y hy => ih e x' y (hwxs x' hx') hy)
+            (fun x' hx' y hy => ih e x' y hN (hwxs x' hx') hy)
     | tuple es =>
       simp only [um] at h
+      simp only [noneDepthOk] at hN
       simp only [tyStep]
       split at h
       · cases h
@@ -420,10 +552,11 @@ theorem unmarshal_sound_aux (F : Nat) (env : Env) (L : Leaves) (hE : soundEnv F 
             cases h
             simp only [tupleOk]
             exact zipR_ok_all2 (um env L n) (conforms env (n + F)) es xs ys hys (eq_of_beq hlen)
-              (fun e' _ x' hx' y hy => ih e' x' y (hwxs x' hx') hy)
+              (fun e' he' x' hx' y hy => ih e' x' y (noneDepthOks_mem hN e' he') (hwxs x' hx') hy)
           · cases h
     | dict k e =>
       simp only [um] at h
+      simp only [noneDepthOk, Bool.and_eq_true] at hN
       simp only [tyStep]
       split at h
       · cases h
@@ -442,14 +575,31 @@ theorem unmarshal_sound_aux (F : Nat) (env : Env) (L : Leaves) (hE : soundEnv F 
               subst hab
               obtain ⟨hwa, hwb⟩ := hwit a b hit'
               simp only [dictEntryOk, Bool.and_eq_true]
-              exact ⟨⟨ih k a kv.1 hwa ha, ih e b kv.2 hwb hb⟩, hh⟩)
+              exact ⟨⟨ih k a kv.1 hN.1 hwa ha, ih e b kv.2 hN.2 hwb hb⟩, hh⟩)
     | union ms =>
       simp only [um] at h
       simp only [tyStep, List.any_eq_true]
       obtain ⟨pre, f, post, hfs, hfv, _⟩ := (C08.firstOk_ok_iff _ x r).mp h
       have hfm : f ∈ (unionOrder ms).map (um env L n) := by rw [hfs]; simp
       obtain ⟨m', hm', rfl⟩ := List.mem_map.mp hfm
-      exact ⟨m', unionOrder_sub m' hm', ih m' x r hx hfv⟩
+      simp only [noneDepthOk, Bool.and_eq_true, List.all_eq_true, Bool.or_eq_true,
+        Bool.not_eq_eq_eq_not, Bool.not_true, decide_eq_true_eq] at hN
+      cases unionOrder_sub m' hm' with
+      | inl hmem => exact ⟨m', hmem, ih m' x r (noneDepthOks_mem hN.2 m' hmem) hx hfv⟩
+      | inr hnone =>
+        -- the None routine the union puts first on behalf of a member that names None
+        obtain ⟨rfl, m0, hm0, hisn⟩ := hnone
+        have hr : r = .none :=
+          isNone_hasTypeG (conformsScalar env) (litConf env) env (n + F) .none r rfl (ih .none x r rfl hx hfv)
+        subst hr
+        have hd : wrapDepth m0 < F := by
+          cases hN.1 m0 hm0 with
+          | inl hf => rw [hisn] at hf; cases hf
+          | inr hlt => exact hlt
+        have := hasTypeG_mono_add (conformsScalar env) (litConf env) env n F m0 .none
+          (isNone_accepts _ _ env F m0 hisn hd)
+        rw [Nat.add_comm] at this
+        exact ⟨m0, hm0, this⟩
     | cls c =>
       simp only [um] at h
       simp only [tyStep, clsOkE]
@@ -462,7 +612,7 @@ theorem unmarshal_sound_aux (F : Nat) (env : Env) (L : Leaves) (hE : soundEnv F 
         simp only [hc]
         have hsc := soundEnv_cls hE hc
         simp only [soundClass, Bool.and_eq_true, List.all_eq_true] at hsc
-        obtain ⟨hnd, hdef⟩ := hsc
+        obtain ⟨⟨hnd, hdef⟩, hfN⟩ := hsc
         split at hst
         · cases hst
         · rename_i items hitems
@@ -481,7 +631,7 @@ theorem unmarshal_sound_aux (F : Nat) (env : Env) (L : Leaves) (hE : soundEnv F 
                 split at hg
                 · rename_i p hfind
                   cases hg
-                  exact ⟨p, hfind, ih p.2 v r' (hwit _ v hm).2 hr⟩
+                  exact ⟨p, hfind, ih p.2 v r' (hfN p (List.mem_of_find?_eq_some hfind)) (hwit _ v hm).2 hr⟩
                 · cases hg)
               (by intro p hp'; cases hp')
             split at hst
@@ -530,7 +680,8 @@ theorem unmarshal_sound_aux (F : Nat) (env : Env) (L : Leaves) (hE : soundEnv F 
                   exact this
     | wrap w t' =>
       simp only [um] at h
-      exact ih t' x r hx h
+      simp only [noneDepthOk] at hN
+      exact ih t' x r hN hx h
 
 /-! ### The executable leaves satisfy `LeafSound` (all fourteen scalar routines) -/
 
@@ -771,15 +922,17 @@ theorem pyLeaves_slwf (env : Env) (today : Int) : SlWf env (pyLeaves env today) 
     if `unmarshal(t, x)` returns `r`, then `r` structurally conforms to `t`. -/
 theorem unmarshal_sound (F : Nat) (env : Env) (L : Leaves) (hE : soundEnv F env = true)
     (hL : LeafSound env L) (hS : SlWf env L) (n : Nat) (t : Ty) (x r : Val)
-    (hx : wfVal env x = true) (h : um env L n t x = .ok r) : ∃ k, conforms env k t r = true :=
-  ⟨n + F, unmarshal_sound_aux F env L hE hL hS n t x r hx h⟩
+    (hx : wfVal env x = true) (h : um env L n t x = .ok r) : ∃ k, conforms env k t r = true := by
+  obtain ⟨F0, h0⟩ := noneDepthOk_ex t
+  exact ⟨n + max F F0, unmarshal_sound_aux (max F F0) env L (soundEnv_mono (Nat.le_max_left _ _) hE) hL hS
+    n t x r (noneDepthOk_mono (Nat.le_max_right _ _) t h0) hx h⟩
 
 /-- **C03 for the executable leaves** (all fourteen scalar routines, the modelled `strload`): no leaf
     hypothesis left, explicit fuel. -/
 theorem unmarshal_sound_py (F : Nat) (env : Env) (today : Int) (hE : soundEnv F env = true)
-    (n : Nat) (t : Ty) (x r : Val) (hx : wfVal env x = true)
+    (n : Nat) (t : Ty) (x r : Val) (hN : noneDepthOk F t = true) (hx : wfVal env x = true)
     (h : um env (pyLeaves env today) n t x = .ok r) : conforms env (n + F) t r = true :=
-  unmarshal_sound_aux F env _ hE (pyLeaves_sound env today) (pyLeaves_slwf env today) n t x r hx h
+  unmarshal_sound_aux F env _ hE (pyLeaves_sound env today) (pyLeaves_slwf env today) n t x r hN hx h
 
 /-! ### What conformance says, clause by clause (the wording of the property) -/
 
@@ -929,24 +1082,24 @@ theorem litConf_pass (env : Env) : ∀ vs v, vs.all isPrim = true → litConf en
 theorem idempotent (S : Scalar → Bool) (F : Nat) (env : Env) (L : Leaves)
     (hE : soundEnv F env = true) (hW : wfEnv S env = true) (hL : LeafSound env L) (hS : SlWf env L)
     (hP : C13.PassLaws S (conformsScalar env) (litConf env) env L)
-    (n : Nat) (t : Ty) (x r : Val) (hwf : wfTy S env t = true) (hx : wfVal env x = true)
-    (h : um env L n t x = .ok r) : ∃ k, um env L k t r = .ok r :=
-  ⟨n + F, C13.passthroughG S (conformsScalar env) (litConf env) env L hW hP (n + F) t r hwf
-    (unmarshal_sound_aux F env L hE hL hS n t x r hx h)⟩
+    (n : Nat) (t : Ty) (x r : Val) (hwf : wfTy S env t = true)
+    (hx : wfVal env x = true) (h : um env L n t x = .ok r) : ∃ k, um env L k t r = .ok r := by
+  obtain ⟨k, hk⟩ := unmarshal_sound F env L hE hL hS n t x r hx h
+  exact ⟨k, C13.passthroughG S (conformsScalar env) (litConf env) env L hW hP k t r hwf hk⟩
 
 /-- **Idempotence on the unconditional core** (int, bool, float, str — `True` in an `int` position
     and int-mixin enum members included; enums without str mix-in): no hypothesis about the leaves. -/
 theorem idempotent_core (F : Nat) (env : Env) (today : Int)
     (hE : soundEnv F env = true) (hW : wfEnv S0 env = true) (hns : ∀ c, isStrMixin env c = false)
-    (n : Nat) (t : Ty) (x r : Val) (hwf : wfTy S0 env t = true) (hx : wfVal env x = true)
-    (h : um env (pyLeaves env today) n t x = .ok r) :
+    (n : Nat) (t : Ty) (x r : Val) (hwf : wfTy S0 env t = true) (hN : noneDepthOk F t = true)
+    (hx : wfVal env x = true) (h : um env (pyLeaves env today) n t x = .ok r) :
     um env (pyLeaves env today) (n + F) t r = .ok r :=
   C13.passthroughG S0 (conformsScalar env) (litConf env) env _ hW
     { leafPass := pyLeaves_pass_conf env today
       litPass := litConf_pass env
       enumPass := C13.enumPass_of_noStrMixin env _ hns }
     (n + F) t r hwf
-    (unmarshal_sound_py F env today hE n t x r hx h)
+    (unmarshal_sound_py F env today hE n t x r hN hx h)
 
 /-! ### Non-vacuity, and the clauses of the property evaluated by the model -/
 
@@ -971,10 +1124,10 @@ def exIn : Val := .dict [(.str "val".toList, .str ['7']), (.str "junk".toList, .
 example : um C01.exEnv (pyLeaves C01.exEnv) 5 (.cls 0) exIn = .ok (C01.leaf 7) := by rfl
 /-- and the theorem applies to it. -/
 example : conforms C01.exEnv (5 + 3) (.cls 0) (C01.leaf 7) = true :=
-  unmarshal_sound_py 3 C01.exEnv 0 (by decide) 5 (.cls 0) exIn _ (by decide) (by rfl)
+  unmarshal_sound_py 3 C01.exEnv 0 (by decide) 5 (.cls 0) exIn _ (by decide) (by decide) (by rfl)
 example : um C01.exEnv (pyLeaves C01.exEnv) (5 + 3) (.cls 0) (C01.leaf 7) = .ok (C01.leaf 7) :=
   idempotent_core 3 C01.exEnv 0 (by decide) (by decide)
-    (by intro c; match c with | 0 => rfl | _ + 1 => rfl) 5 (.cls 0) exIn _ (by decide) (by decide) (by rfl)
+    (by intro c; match c with | 0 => rfl | _ + 1 => rfl) 5 (.cls 0) exIn _ (by decide) (by decide) (by decide) (by rfl)
 
 /-- `class E(IntEnum): A = 1; B = 2` -/
 def enumEnv : Env :=
@@ -1016,5 +1169,17 @@ def tdEnv : Env :=
 example : um tdEnv (pyLeaves tdEnv) 3 (.cls 0) (.dict []) = .error .type := by rfl
 example : um tdEnv (pyLeaves tdEnv) 3 (.cls 0) (.dict [(.str ['a'], .str ['1']), (.str ['z'], .int 3)])
     = .ok (.dict [(.str ['a'], .int 1)]) := by rfl
+
+/-- A union member naming None through an alias makes the union optional: None is answered by the
+    None routine on that member's behalf, and the result conforms to the *wrapped* member. -/
+def optAlias : Ty := .union [.scalar .int, .wrap .alias (.wrap .newtype .none)]
+example : um [] (pyLeaves []) 3 optAlias .none = .ok .none := by rfl
+example : noneDepthOk 3 optAlias = true ∧ noneDepthOk 2 optAlias = false := by decide
+example : conforms [] (3 + 3) optAlias .none = true :=
+  unmarshal_sound_py 3 [] 0 (by decide) 3 optAlias .none _ (by decide) (by decide) (by rfl)
+/-- The explicit fuel bound needs `noneDepthOk`: with offset 0 the checker cannot see through the chain
+    at the depth the routine ran (the `∃ k` form `unmarshal_sound` is unaffected). -/
+example : um [] (pyLeaves []) 2 optAlias .none = .ok .none ∧ conforms [] (2 + 0) optAlias .none = false := by
+  exact ⟨rfl, by decide⟩
 
 end Typelib.C03
